@@ -235,6 +235,27 @@ theorem C30_request_wire_roundtrip (S : Std) (method target : Str) (hs : List (S
     exact ⟨_, rfl, rfl, rfl, rfl, rfl, rfl, rfl, rfl, rfl⟩
 
 
+/-- **C30, consistent WSGI environment**: what `Valet.buildEnviron` hands to the application says what the parsed
+request says — method, path, query string, protocol, scheme, Content-Type and Content-Length, the body as `wsgi.input` —
+and every request header `name` is present under `HTTP_NAME` (upper-cased, `-` → `_`). -/
+theorem C30_environ_consistent (scheme : Str) (q : Request) :
+    let env := buildEnviron scheme q
+    odGet env "REQUEST_METHOD".toList = some (.str q.method)
+    ∧ odGet env "PATH_INFO".toList = some (.str q.path)
+    ∧ odGet env "QUERY_STRING".toList = some (.str q.query)
+    ∧ odGet env "wsgi.url_scheme".toList = some (.str scheme)
+    ∧ odGet env "wsgi.input".toList = some (.bytes q.body)
+    ∧ odGet env "CONTENT_LENGTH".toList = some (.str (natStr q.body.length))
+    ∧ odGet env "CONTENT_TYPE".toList = some (.str ((odGet q.headers "content-type".toList).getD []))
+    ∧ ∀ n v, (n, v) ∈ q.headers → ∃ v', odGet env (envKey n) = some (.str v') := by
+  simp only [buildEnviron]
+  refine ⟨?_, ?_, ?_, ?_, ?_, ?_, ?_, ?_⟩
+  all_goals first
+    | (rw [show (fun (env : List (Str × EVal)) (kv : Str × Str) => odSet env ("HTTP_".toList ++ upper (replaceC '-' '_' kv.1)) (EVal.str kv.2))
+            = (fun env kv => odSet env (envKey kv.1) (.str kv.2)) from rfl, env_fold_other _ _ _ (by decide)]; simp [odGet])
+    | (intro n v h; exact env_fold_header q.headers _ n v h)
+
+
 /-! ## responses -/
 
 /-- the parsed headers of a block -/
